@@ -416,6 +416,22 @@ impl CoreDocument {
     if self.resolve_method(method.id(), None).is_some() || self.service().query(method.id()).is_some() {
       return Err(Error::MethodInsertionError);
     }
+    // An embedded method must not take an identifier that a verification relationship already refers to: the reference
+    // would alias the embedded method (or, within the same relationship, the insertion would silently not take place).
+    if !matches!(scope, MethodScope::VerificationMethod) {
+      let referenced: bool = [
+        &self.data.authentication,
+        &self.data.assertion_method,
+        &self.data.key_agreement,
+        &self.data.capability_delegation,
+        &self.data.capability_invocation,
+      ]
+      .into_iter()
+      .any(|method_refs| method_refs.query(method.id()).is_some());
+      if referenced {
+        return Err(Error::MethodInsertionError);
+      }
+    }
     match scope {
       MethodScope::VerificationMethod => self.data.verification_method.append(method),
       MethodScope::VerificationRelationship(MethodRelationship::Authentication) => {
